@@ -246,3 +246,32 @@ Proof.
   - vm_compute. reflexivity.
   - apply (follows_last sha3_256 cx_leaf cx_leaf_hash). vm_compute. reflexivity.
 Qed.
+
+(* non-vacuity of the remaining implications: the well-formedness premises of encode_path_def and deserialize_serialize, ALL premises of
+   prove_merkle_sound_or_collision together (honest path of position 2 of three leaves), and ALL premises of patricia_verdict_of_cut_proof
+   together (key 57AB, above = 57, krest = AB, the two-node proof of branch_path_follows under the root cx_root) *)
+Example premises_nonvacuous :
+  (* encode_path_def *)
+  (wf_path {| pp_bytes := [0xAB]; pp_size := 2 |} /\ encode_path {| pp_bytes := [0xAB]; pp_size := 2 |} true = Ok [0x20; 0xAB])
+  (* deserialize_serialize *)
+  /\ (Forall wf_node [cx_branch; cx_leaf] /\ deserialize_patricia_tree_nodes (serialize_nodes [cx_branch; cx_leaf]) = Ok [cx_branch; cx_leaf])
+  (* prove_merkle_sound_or_collision, with the honest path of position 2 *)
+  /\ (let leaves := [ex_leaf 1; ex_leaf 2; ex_leaf 3] in
+      Forall (fun l => length l = 32%nat) leaves /\ (2 < length leaves)%nat /\ length (ex_leaf 3) = 32%nat
+      /\ Forall (fun p => length (part_hash p) = 32%nat) (merkle_path sha3_256 leaves 2)
+      /\ merkle_final sha3_256 leaves = Ok (merkle_root_spec sha3_256 leaves)
+      /\ prove_merkle sha3_256 (ex_leaf 3) (merkle_path sha3_256 leaves 2) (merkle_root_spec sha3_256 leaves) = true)
+  (* patricia_verdict_of_cut_proof: key 57AB, above = 57, krest = AB, the two-node proof of branch_path_follows *)
+  /\ (follows sha3_256 [cx_branch; cx_leaf] (nibbles_of [0x57; 0xAB])
+        ([5; 7] ++ hex_path (node_path (last [cx_branch; cx_leaf] (LeafNode {| pp_bytes := []; pp_size := 0 |} []))))
+      /\ nibbles_of [0x57; 0xAB] = [5; 7] ++ [10; 11]
+      /\ (forall first rest h, [cx_branch; cx_leaf] = first :: rest -> node_hash sha3_256 first = Ok h -> In h [cx_root])).
+Proof.
+  split; [split; [split; [reflexivity|vm_compute; split; discriminate]|vm_compute; reflexivity]|].
+  split; [split; [|vm_compute; reflexivity]|].
+  { repeat constructor; vm_compute; reflexivity. }
+  split; [vm_compute; repeat split; repeat constructor|].
+  split; [exact (proj1 branch_path_follows)|]. split; [vm_compute; reflexivity|].
+  intros first rest h E Hh. injection E as <- _. left. vm_compute in Hh. injection Hh as <-. vm_compute. reflexivity.
+Qed.
+Print Assumptions premises_nonvacuous.
